@@ -112,10 +112,34 @@ def check_reject(start, end, acc):
                     {'start': str(start), 'end': str(end)})
 
 
+def check_session_clock(start, end, acc, frac):
+    """The clock a trading session (with a burn-in inside the range) runs on is the clock of its (start, end)."""
+    import random as _r
+    case = {'start': str(start), 'end': str(end), 'pre_market': False, 'post_market': False, 'session': True, 'frac': frac}
+
+    class _R(object):
+        def choice(self, xs):
+            return frac
+    try:
+        sess = build_session_with_burn_in(start, end, 'daily', None, _R())
+        got = [(to_py(e.ts), e.event_type) for e in sess.sim_engine]
+    except Exception as e:
+        if core.from_repo(e):
+            raise Violation('C12', 'session-clock-raised/%s' % type(e).__name__, 'a session over %s .. %s raised %r' % (start, end, e), case)
+        raise
+    want = cal.clock(start, end, False, False)
+    acc.count('C12:session_clocks_observed')
+    if got != want:
+        raise Violation('C12', 'session-clock', 'a session over %s .. %s with a burn-in at %s of the range runs on %d events '
+                        '(first %s), the clock of the range has %d (first %s)' % (start, end, frac, len(got), got[:1], len(want), want[:1]), case)
+
+
 def run_clock_case(case, acc):
     s = dt.datetime.fromisoformat(case['start'])
     e = dt.datetime.fromisoformat(case['end'])
-    if case.get('reject'):
+    if case.get('session'):
+        check_session_clock(s, e, acc, case['frac'])
+    elif case.get('reject'):
         check_reject(s, e, acc)
     else:
         check_clock(s, e, case['pre_market'], case['post_market'], acc, reuse=True)
@@ -165,6 +189,8 @@ def shard_c12(spec, acc):
             check_clock(start, end, pre, post, acc, reuse=True)
             if end > start:
                 check_reject(end, start, acc)
+            if i % 3 == 0 and end - start > dt.timedelta(days=3):
+                check_session_clock(start, end, acc, rng.choice([0.3, 0.5, 0.8]))
         except Violation as v:
             acc.violation(v, {'kind': 'clock', **v.witness})
         acc.evaluations += 1
@@ -318,7 +344,7 @@ def schedules_survive_sessions(start, end, acc, rng):
     for kind, wd in (('weekly', rng.choice(cal.WEEKDAYS)), ('daily', None), ('end_of_month', None)):
         check_schedule(kind, start, end, wd, False, cs, acc)
         try:
-            build_session_with_burn_in(start, end, kind, wd, rng)
+            sess = build_session_with_burn_in(start, end, kind, wd, rng)
         except Exception as e:
             if core.from_repo(e):
                 raise Violation('C13', 'session-construction-raised/%s' % type(e).__name__,
@@ -331,6 +357,43 @@ def schedules_survive_sessions(start, end, acc, rng):
             raise Violation('C13', 'after-session/' + v.key, 'after a session with a burn-in over the same range was built in this '
                             'process: ' + v.msg, dict(v.witness, after_session=True))
         acc.count('C13:after_session_checks')
+        # the session itself holds this schedule and this clock: every instant of the one is an event of the other
+        wit = {'kind': kind, 'start': str(start), 'end': str(end), 'weekday': wd, 'pre_market': False, 'after_session': True}
+        want = {'weekly': lambda: cal.weekly(start, end, wd), 'daily': lambda: cal.daily(start, end),
+                'end_of_month': lambda: cal.end_of_month(start, end)}[kind]()
+        got = [to_py(t) for t in sess.rebalance_schedule]
+        if got != want:
+            raise Violation('C13', 'session-schedule', 'the %s session over %s .. %s (weekday %s) holds the schedule %s..., the '
+                            'dates of the range give %s...' % (kind, start, end, wd, [str(t) for t in got[:3]],
+                                                               [str(t) for t in want[:3]]), wit)
+        clock = [to_py(e.ts) for e in sess.sim_engine]
+        if set(clock) != cs or clock != sorted(clock):
+            raise Violation('C13', 'session-clock', 'the session over %s .. %s (burn-in inside the range) runs on a clock of %d '
+                            'events (%s ...), the simulation clock for the range has %d' % (start, end, len(clock),
+                                                                                         [str(t) for t in clock[:2]], len(cs)), wit)
+        missing = [t for t in want if t not in set(clock)]
+        if missing:
+            raise Violation('C13', 'session-skips-rebalance', 'scheduled instants %s are not events of the session clock'
+                            % [str(t) for t in missing[:3]], wit)
+        acc.count('C13:session_schedule_and_clock_checks')
+    # an unknown weekday given to the session is rejected like one given to the schedule class
+    for bad in ('', 'SAT', 'SUN', 'WEEKLY'):
+        try:
+            build_session_with_burn_in(start, end, 'weekly', bad, rng)
+        except ValueError:
+            acc.count('C13:session_rejections_checked')
+            continue
+        except Exception as e:
+            if core.from_repo(e):
+                raise Violation('C13', 'session-reject-wrong-type/%s' % type(e).__name__, 'a weekly session with weekday %r raised %r'
+                                % (bad, e), {'kind': 'weekly', 'start': str(start), 'end': str(end), 'weekday': 'MON',
+                                             'pre_market': False, 'after_session': True})
+            raise
+        raise Violation('C13', 'session-bad-weekday-accepted', 'a weekly session with rebalance_weekday=%r was built (schedule %s...)'
+                        % (bad, [str(t) for t in list(getattr(build_session_with_burn_in(start, end, 'weekly', bad, rng),
+                                                                 'rebalance_schedule', []))[:2]]),
+                        {'kind': 'weekly', 'start': str(start), 'end': str(end), 'weekday': 'MON', 'pre_market': False,
+                         'after_session': True})
 
 
 def run_sched_case(case, acc):
@@ -353,6 +416,16 @@ def shard_c13(spec, acc):
     mine = days[spec['lo']:spec['hi']:spec.get('stride', 1)]
     rng = random.Random(spec['rng'])
     tods = [dt.time(0, 0), dt.time(14, 30)]
+    # "no scheduled rebalance is silently skipped", observed on running sessions: any time of day for the start
+    from qsmon import sesswl
+    for j in range(spec.get('sessions', 3)):
+        cfg = sesswl.gen_cfg(rng, alpha_kinds=('fixed', 'single'), universe_kinds=('static',), max_days=30, burn=False,
+                             rebalances=('daily', 'weekly', 'end_of_month'), two_sources=0)
+        cfg['start'] = '%s %s+00:00' % (cfg['start'][:10], rng.choice(['22:15:00', '21:00:00', '21:00:01', '23:30:00', '16:00:00',
+                                                                      '14:30:01', '00:00:00', '09:00:00']))
+        sesswl.run_case(cfg, acc, 'C13')
+        acc.evaluations += 1
+        acc.see('C13:session_start_times', cfg['start'][11:19])
     for d in mine:
         if time.time() > t_end:
             acc.count('stopped_on_time_budget')
